@@ -144,15 +144,19 @@ def is_unique_keys_refusal(e):
 def check_len_index(ds, m, tag, require_indexable=None):
     """C02: len, every index in [-len-2, len+2) in three integer types, IndexError outside."""
     n = m.n
-    if m.sized:
-        try:
-            got = len(ds)
-        except PASS_THROUGH:
-            raise
-        except BaseException as e:
+    # "a dataset that offers a length ... reports exactly the number of examples it yields": a length that is offered
+    # must be right whether or not the stage documents one; a documented one must be offered
+    try:
+        got = len(ds)
+    except PASS_THROUGH:
+        raise
+    except BaseException as e:
+        if m.sized:
             raise Violation(f'len-raised|{tag}', f'len() raised {describe_exc(e)}; expected {n}')
+    else:
         if got != n or isinstance(got, bool):
-            raise Violation(f'len-wrong|{tag}', f'len() == {got!r}, iteration yields {n}')
+            raise Violation(f'len-wrong|{tag}', f'len() == {got!r}, iteration yields {n}'
+                                                + ('' if m.sized else ' (stage documents no length)'))
     try:
         reported = ds.indexable
         if callable(reported):
